@@ -1,7 +1,7 @@
 #!/usr/bin/env python3
 """Copy evaluated seeded changes from /tmp/seeded_out into /verif/seeded/<ID>-m<i>/ (patch.diff, demonstration, meta.json)."""
 import json, os, shutil, sys, glob
-for d in sorted(glob.glob("/tmp/seeded_out/C*/m*")):
+for d in sorted(glob.glob(os.environ.get("SEED_ROOT", "/tmp/seeded_out") + "/C*/m*")):
     if not os.path.exists(os.path.join(d, "patch.diff")) or not os.path.exists(os.path.join(d, "meta.json")):
         continue
     prop = os.path.basename(os.path.dirname(d)); m = os.path.basename(d)
